@@ -23,9 +23,11 @@ ToSet(s) == {s[i] : i \in 1..Len(s)}
 
 \* the logged state of the real pool after event e agrees with the primed variables
 Matches(e) ==
-  /\ permits' = e.permits /\ closed' = e.closed /\ users' = e.users
-  /\ (e.slots => (size' = e.size /\ creating' = e.creating /\ maxSize' = e.max /\ idle' = e.idle))
-  /\ (lock' # NoTask) = ~e.slots
+  \* (once the last pool handle is gone there is no pool state to look at)
+  /\ (~e.gone => (permits' = e.permits /\ closed' = e.closed /\ users' = e.users))
+  /\ ((e.slots /\ ~e.gone) => (size' = e.size /\ creating' = e.creating /\ maxSize' = e.max /\ idle' = e.idle))
+  /\ (~e.gone => ((lock' # NoTask) = ~e.slots))
+  /\ poolGone' = e.gone
   /\ \A t \in Tasks : SiteOf(pc'[t]) = e.at[t] /\ susp'[t] = e.susp[t]
   /\ \A t \in Tasks : held'[t] = ToSet(e.held[t])
   /\ (e.done => res'[e.task] = e.result)
@@ -45,7 +47,8 @@ Apply(e) ==
     [] a = "StartTake" -> StartTake(t, x[1]) [] a = "TkUsers" -> TkUsers(t) [] a = "TkLock" -> TkLock(t) [] a = "TkAdd" -> TkAdd(t)
     [] a = "StartResize" -> StartResize(t, x[1]) [] a = "RsLock" -> RsLock(t) [] a = "RsForget" -> RsForget(t) [] a = "RsGrow" -> RsGrow(t)
     [] a = "StartClose" -> StartClose(t) [] a = "ClLock" -> ClLock(t)
-    [] a = "StartRetain" -> StartRetain(t) [] a = "RtStatus" -> RtStatus(t) [] a = "RtWalk" -> RtWalk(t, ToSet(x[1]))
+    [] a = "StartRetain" -> StartRetain(t) [] a = "RtStatus" -> RtStatus(t) [] a = "RtLock" -> RtLock(t) [] a = "RtPred" -> RtPred(t, x[1])
+    [] a = "Tick" -> Tick(t)
     [] a = "DropPool" -> DropPool
     [] OTHER -> FALSE
 
@@ -61,6 +64,7 @@ ResetAll ==
   /\ held' = [t \in Tasks |-> {}] /\ nextObj' = 1 /\ alive' = {} /\ det' = [o \in Objs |-> 0]
   /\ taken' = {} /\ ho' = [o \in Objs |-> 0] /\ orphan' = {} /\ late' = [t \in Tasks |-> FALSE]
   /\ budget' = Budget /\ poolGone' = FALSE /\ closeRet' = FALSE /\ running' = NoTask /\ panicked' = FALSE
+  /\ ticked' = [t \in Tasks |-> FALSE]
 
 TraceInit == Init /\ l = 1 /\ skipping = FALSE
 EvStep(e) == Apply(e) /\ Matches(e)
